@@ -512,7 +512,10 @@ def oracle(h, res):
             if k in b["live"] and b["get"].get(ks, "NotFound") != "NotFound" and a["get"].get(ks, "ok") == "NotFound":
                 if kind in ("prune", "trash", "empty", "removerun") and k in op.get("ks", []):
                     continue
-                cause = "" if refused else (":pct-escape" if k in aliased else ":plain")
+                # ... or that share their artifact (same record text: multi-ref ingest, zip) with such a dataset
+                alias_paths = {p_ for k_, p_ in b["recs"] if k_ in aliased}
+                via_alias = k in aliased or any(k_ == k and p_ in alias_paths for k_, p_ in b["recs"])
+                cause = "" if refused else (":pct-escape" if via_alias else ":plain")
                 fails.append((f"live-dataset-lost-artifact:{tag}{refused}{cause}", n,
                               f"step {n} ({tag}, outcome {a['out']}): dataset {k} is still stored but its artifact is gone (get raises FileNotFoundError)"))
     return fails
